@@ -81,16 +81,24 @@ PROPS = {
         "assumptions": ["EdDSA / ECDSA correctness"],
         "open_obligations": ["wire_round_trip: decode (encode c) = some c for the container messages"],
     },
+    "C07": {
+        "module": "BiscuitModel.Props.C07",
+        "streams": ["chain", "authz"],
+        "level_text": "Lean 4 theorems: append3p_checks (append_third_party succeeds only for the expected key and a signature that verifies over the block bytes and the signature of the block the token currently ends with), externalV1_injective, third_party_position_bound (under unforgeability for the external key, a response signed for one position is accepted only where the token ends with that very signature), third_party_checked_in_place (in any accepted token every external signature verifies, under the key stated in the token, over the block's own bytes and the signature of the block that actually precedes it - so moving, re-attributing or altering the block breaks verification), keyMap_spec and third_party_trust_only_by_key (a block is in the trusted origins of another block's element only by default trust, by previous of a later block, or by a scope naming a key that signed it). Tie: chain stream - genuine responses offered to the right token, with a wrong expected key, to another token, one block later; through UnverifiedBiscuit with replaced key, flipped signature, payload or signature of another response, then verified; plus all structured mutations of tokens containing third-party blocks; authz stream - third-party blocks signed by a pool of three keys (one key signing several blocks) with and without trusting scopes.",
+        "level_note": "Cryptographic assumptions are hypotheses. The isolation of a third-party block's symbol and public-key tables is part of C12's model (Model/Intern interns third-party blocks from their own tables) and is tied by the authz and symbols streams, not by a theorem here.",
+        "rule": "chain stream restricted to third-party cases (tpv, tpu and chain cases whose subject has an external signature); authz stream as in C04; non-trivial = any tp case or an authz case with a third-party block",
+        "trusted_base": ["tools/extract.py (payload layouts regenerated from crypto/mod.rs)", "harness/src/s_chain.rs (third-party response cases), s_authz.rs (trust by key)", "lean/Codec.lean, lean/Driver.lean"],
+        "assumptions": ["unforgeability for the external key"],
+    },
     "C08": {
         "module": "BiscuitModel.Props.C08",
         "streams": ["chain", "authz"],
         "level_text": "Lean 4 theorems: sealed_is_final (every append, third-party append, third-party request and re-seal on a sealed container is refused, whatever its arguments), sealed_history_refused, seal_is_sealed, seal_preserves (authority, blocks, root key id, revocation identifiers and external keys unchanged - hence the same authorization result, since C04's authorize reads only the blocks), seal_verifies, seal_binds_last_block (an accepted sealed token's final signature is a signature by the last next key over the last block's bytes, next key and signature) with seal_payload_injective. Tie: chain stream (sealed stages, all structured mutations of sealed tokens incl. seal flip/extend/replace, block add/remove/alter) and authz stream (every case is also authorized after seal(): outcome must be identical).",
-        "level_note": "Cryptographic assumptions are hypotheses. Operations after seal on the implementation side are exercised by the chain stream's seal stages and by the authz stream; a dedicated operations-after-seal sweep through UnverifiedBiscuit is listed as open.",
+        "level_note": "Cryptographic assumptions are hypotheses. Operations after seal on the implementation side are exercised by the chain stream's seal stages and by the authz stream; every operation (append, append_third_party, third_party_request, seal) is also attempted on sealed tokens through Biscuit and UnverifiedBiscuit, in memory and reloaded, and must be refused as the model's state machine says.",
         "rule": "chain stream (see C01) restricted in spirit to sealed stages; authz stream compares authorize on token, reloaded token and sealed token",
         "trusted_base": ["tools/extract.py (payload layouts, schema field numbers regenerated from crypto/mod.rs and schema.proto)", "harness/src/s_chain.rs (history generator, structured mutations, prost decoding of the wire message)", "ed25519-dalek / p256 verifiers used independently of biscuit-auth to check real signatures over the model's payload bytes", "lean/Codec.lean, lean/Driver.lean"],
         "assumptions": ["unforgeability for the last next key"],
-        "open_obligations": ["implementation sweep of every operation after seal through both APIs, before and after a round trip"],
-    },
+            },
     "C15": {
         "module": "BiscuitModel.Props.C15",
         "streams": ["chain"],
@@ -261,6 +269,19 @@ def cmp_chain(case, impl, model):
         return "driver error: %s" % model["driver_error"]
     if "panic" in impl:
         return "implementation panicked: %s" % impl["panic"]
+    if case.get("op") in ("tpv", "tpu"):
+        if impl.get("accept") != model.get("accept"):
+            if impl.get("accept"):
+                return "third-party response accepted where it must be refused (%s: %s)" % (case["op"], case["variant"])
+            return "third-party response refused where it must be accepted (%s: %s)" % (case["op"], case["variant"])
+        if case["op"] == "tpv" and impl.get("accept") and not impl.get("result_verifies"):
+            return "token with the accepted third-party block does not verify"
+        return None
+    if case.get("op") == "sealops":
+        bad = [k for k in model["ops"] if impl["ops"].get(k) != model["ops"][k]]
+        if bad:
+            return "operation on a sealed token not refused: %s" % ", ".join(sorted(bad))
+        return None
     paths = (impl.get("accept"), impl.get("accept_unverified_then_verify"), impl.get("accept_base64"))
     if len(set(paths)) != 1:
         return "entry points disagree on acceptance: from=%s unverified+verify=%s base64=%s" % paths
@@ -293,8 +314,11 @@ POST = {"chain": "chainpost"}
 
 # which cases of a shared stream are in the scope of a property (others are run but not judged)
 FILTERS = {
-    ("C02", "chain"): lambda case: case.get("mutation") == "none",
-    ("C08", "chain"): lambda case: "seal" in (case["subject"].get("proof") or {}) and "ecdsa" not in case.get("mutation", ""),
+    ("C02", "chain"): lambda case: case.get("op") == "chain" and case.get("mutation") == "none",
+    ("C08", "chain"): lambda case: case.get("op") == "sealops" or ("seal" in (case["subject"].get("proof") or {}) and "ecdsa" not in case.get("mutation", "")),
+    ("C01", "chain"): lambda case: case.get("op") == "chain",
+    ("C07", "chain"): lambda case: case.get("op") in ("tpv", "tpu") or (case.get("op") == "chain" and "ecdsa" not in case.get("mutation", "") and ("external" in case.get("mutation", "") or any(b.get("ext") for b in case["subject"]["blocks"]))),
+    ("C15", "chain"): lambda case: case.get("op") == "chain",
 }
 
 COMPARATORS = {"chain": cmp_chain, "limits": cmp_limits, "expr": cmp_default, "engine": cmp_engine, "authz": cmp_authz, "atten": cmp_atten, "determ": cmp_determ}
@@ -306,7 +330,7 @@ def nontrivial(stream, case, impl):
     if stream == "authz":
         return impl.get("r") in ("ok", "nomatch", "unauth")
     if stream == "chain":
-        return len(case["subject"]["blocks"]) >= 1 or case.get("mutation") != "none"
+        return case.get("op") in ("sealops", "tpv", "tpu") or len(case["subject"]["blocks"]) >= 1 or case.get("mutation") != "none"
     if stream == "limits":
         return any(o.get("r", "").startswith("limit") for o in impl.get("calls", [])) or len(impl.get("calls", [])) > 1
     if stream == "determ":
